@@ -1,4 +1,5 @@
 import Glas.Props.C01
+import Glas.Props.C02Marks
 #print axioms Glas.Props.C01.lex_tiles
 #print axioms Glas.Props.C01.glas_noSkip
 #print axioms Glas.Props.C01.exec_advances
@@ -9,3 +10,4 @@ import Glas.Props.C01
 #print axioms Glas.Props.C01.C01_lossless
 #print axioms Glas.Props.C01.buildTree_rootStart_needed
 #print axioms Glas.Props.C01.glas_rootStart
+#print axioms Glas.Props.C02Marks.C01_total
